@@ -25,7 +25,8 @@ RULE = ('(paths) every sign pattern x magnitude template of up to k fills (k<=4 
         'dprice*net; portfolio totals == sums over positions. Tolerance 1e-9 x (sum|p*q| + sum c + |mv|). '
         'Non-trivial = both sides traded, non-zero open-side commission and net != 0 at a check; distinct = '
         'distinct (sign pattern, trajectory, values).'
-        " Round-5 reach: (position driver) fills stamped before the position's time are attempted in between and must be refused, after which the position must reconcile to the ledger with or without the refused fill (never a mixture); the fill that opens a position may be 0.25-0.75 units.")
+        " Round-5 reach: (position driver) fills stamped before the position's time are attempted in between and must be refused, after which the position must reconcile to the ledger with or without the refused fill (never a mixture); the fill that opens a position may be 0.25-0.75 units."
+        " Round-10 reach: part `broker`: orders filled and positions re-marked by SimulatedBroker.update itself (open and closed hours, orders waiting over closed hours, reports read between submission and update, 1-2 portfolios, bid/ask spreads, percentage fees); the identities are checked on every row of get_portfolio_as_dict after every update (non-trivial = a re-marked position traded on both sides).")
 ASSUMPTIONS = [
     'quantities are whole numbers (as Transaction documents) or, in a quarter of the random ladders, non-integers of at '
     'least one unit; sub-unit fills other than the one opening a position are outside the domain (the code documents '
@@ -385,7 +386,137 @@ def ladders(draw):
             'marks_without_dt': driver != 'portfolio' and draw(st.booleans())}
 
 
+# ---------------------------------------------------------------------------------------------------------
+# the same identities read from the broker's holdings report while the broker marks and fills
+
+def _check_row(row, ep, mark, where):
+    e = ep.expect(mark)
+    tol = 1e-9 * float(e['scale']) + 1e-13
+    if row['quantity'] != e['net']:
+        raise Violation('%s: reported quantity %r, fills sum to %r' % (where, row['quantity'], e['net']))
+    if abs(row['total_pnl'] - (row['realised_pnl'] + row['unrealised_pnl'])) > tol:
+        raise Violation('%s: reported total %r != realised %r + unrealised %r' % (
+            where, row['total_pnl'], row['realised_pnl'], row['unrealised_pnl']))
+    for key, want in (('market_value', e['mv']), ('total_pnl', e['total']), ('unrealised_pnl', e['unrealised'])):
+        if abs(row[key] - float(want)) > tol:
+            raise Violation('%s: reported %s %r; fills %s at the latest price %r give %r' % (
+                where, key, row[key], [(float(q_), float(p_), float(c_)) for q_, p_, c_ in ep.fills], float(mark), float(want)))
+
+
+def run_broker(case):
+    """Orders filled and positions re-marked by SimulatedBroker.update (open and closed hours, orders waiting over
+    closed hours), the P&L read from get_portfolio_as_dict after every update."""
+    from vlib import cal, kit
+    q = load()
+    names = kit.ASSET_POOL[:case['na']]
+    dh = kit.StubDH()
+    for a, p in zip(names, case['start_prices']):
+        dh.set(a, p, p * (1 + case['spread']))
+    t = kit.T_OPEN
+    b = q.SimulatedBroker(t, q.SimulatedExchange(t), dh, initial_funds=4e12, fee_model=kit.fee_model(case['fee']))
+    pids = ['p', 'p2'][:case['np']]
+    log = []
+    for pid in pids:
+        b.create_portfolio(pid)
+        b.subscribe_funds_to_portfolio(pid, 1e12)
+        kit.tap(b.portfolios[pid], log, pid)
+    eps = {pid: {} for pid in pids}
+    last = {pid: {} for pid in pids}
+    cls = set()
+    nt = False
+    for i, st_ in enumerate(case['steps']):
+        adv = st_['adv']
+        if adv == 'closed':
+            t = cal.ts(t.date(), 22, 0) if (t.hour, t.minute) < (22, 0) else t + pd.Timedelta(minutes=7)
+        elif adv == 'nextday':
+            d = t.date() + pd.Timedelta(days=1)
+            while d.weekday() > 4:
+                d += pd.Timedelta(days=1)
+            t = cal.ts(d, 15, 0)
+        else:
+            t = t + pd.Timedelta(minutes=1)
+        is_open = t.weekday() < 5 and (14, 30) <= (t.hour, t.minute) < (21, 0)
+        for ai, f in st_['moves']:
+            bid = dh.q[names[ai % len(names)]][0] * f
+            dh.set(names[ai % len(names)], bid, bid * (1 + case['spread']))
+        for pi, ai, qty in st_['orders']:
+            b.submit_order(pids[pi % len(pids)], q.Order(t, names[ai % len(names)], qty))
+        if st_.get('read_first'):
+            for pid in pids:
+                b.get_portfolio_as_dict(pid)             # a report read between submission and update
+        n0 = len(log)
+        b.update(t)
+        new = log[n0:]
+        if new and not is_open:
+            raise Violation('step %d: fills at %s, outside exchange hours' % (i, t))
+        filled = {pid: set() for pid in pids}
+        for pid in pids:
+            for a in list(eps[pid]):
+                # every held asset is re-marked at the mid quote of the update time, before any fill
+                last[pid][a] = dh.get_asset_latest_mid_price(t, a)
+        for pid, txn in new:
+            ep = eps[pid].setdefault(txn.asset, Episode())
+            ep.add(txn.quantity, txn.price, txn.commission)
+            last[pid][txn.asset] = txn.price
+            filled[pid].add(txn.asset)
+            if ep.net == 0:
+                del eps[pid][txn.asset]
+                last[pid].pop(txn.asset, None)
+                cls.add('closed_to_zero')
+        for pid in pids:
+            rep = b.get_portfolio_as_dict(pid)
+            if set(rep) != set(eps[pid]):
+                raise Violation('step %d at %s: %s reports positions in %s, the fills leave %s open' % (
+                    i, t, pid, sorted(rep), sorted(eps[pid])))
+            for a, row in rep.items():
+                _check_row(row, eps[pid][a], last[pid][a], 'step %d at %s (%s), %s %s' % (
+                    i, t, 'open' if is_open else 'closed', pid, a))
+                ep = eps[pid][a]
+                if a not in filled[pid]:
+                    cls.add('remarked_by_the_broker' + ('' if is_open else '_in_closed_hours'))
+                    if any(pids[pi % len(pids)] == pid and names[ai % len(names)] == a for pi, ai, _ in st_['orders']) and not is_open:
+                        cls.add('remarked_while_an_order_in_it_waits')
+                    if any(x[0] > 0 for x in ep.fills) and any(x[0] < 0 for x in ep.fills) and st_['moves']:
+                        nt = True
+    cls.add('portfolios_%d' % len(pids))
+    cls.add('fee_' + ('zero' if case['fee'] is None else 'percent'))
+    return Result(sorted(cls), nontrivial=nt, info={'fills': len(log)})
+
+
+@st.composite
+def broker_cases(draw):
+    na = draw(st.integers(1, 3))
+    np_ = draw(st.sampled_from([1, 1, 2]))
+    steps = []
+    net = {}
+    for i in range(draw(st.one_of(st.integers(2, 8), st.integers(2, 30)))):
+        orders = []
+        for _ in range(draw(st.sampled_from([0, 1, 1, 2]))):
+            pi, ai = draw(st.integers(0, np_ - 1)), draw(st.integers(0, na - 1))
+            cur = net.get((pi, ai), 0)
+            how = draw(st.sampled_from(['any', 'any', 'close', 'flip', 'reduce']))
+            mag = draw(st.one_of(gen.small_qty, st.integers(1, 1000)))
+            if how == 'close' and cur:
+                qty = -cur
+            elif how == 'flip' and cur:
+                qty = -cur - (mag if cur > 0 else -mag)
+            elif how == 'reduce' and abs(cur) > 2:
+                qty = -(abs(cur) // 2) * (1 if cur > 0 else -1)
+            else:
+                qty = mag if draw(st.booleans()) else -mag
+            net[(pi, ai)] = cur + qty
+            orders.append([pi, ai, qty])
+        moves = [[draw(st.integers(0, na - 1)), draw(st.sampled_from([0.5, 0.9, 0.97, 1.03, 1.1, 2.0]))]
+                 for _ in range(draw(st.sampled_from([0, 1, 1, 2, 3])))]
+        steps.append({'adv': draw(st.sampled_from(['min', 'min', 'closed', 'closed', 'nextday'])), 'orders': orders,
+                      'moves': moves, 'read_first': draw(st.booleans())})
+    return {'na': na, 'np': np_, 'steps': steps, 'start_prices': [draw(gen.prices) for _ in range(na)],
+            'spread': draw(st.sampled_from([0.0, 0.01, 0.25])),
+            'fee': draw(st.sampled_from([None, None, [0.001, 0.005], [0.01, 0.0]]))}
+
+
 PARTS = [
+    Part('broker', 'hyp', run_broker, strategy=broker_cases(), quick=1500, thorough=120000, quick_shards=8),
     Part('paths', 'sweep', run_case, sweep=paths, quick_shards=8, exhaustive=True),
     Part('random', 'hyp', run_case, strategy=ladders(), quick=4000, thorough=320000, quick_shards=8),
 ]
